@@ -281,6 +281,7 @@ impl Engine for DagEngine {
           let e = *rng.pick(&edges);
           if rng.chance(50) { a = e.1; b = e.0; } else { a = e.1; }
         }
+        if a == b && rng.chance(85) && live.len() > 1 { b = *rng.pick(&live); }
         ops.push(DagOp::AddEdge(a, b));
         edges.push((a, b));
         continue;
@@ -359,7 +360,12 @@ impl Engine for DagEngine {
               rg.out[a].push((b, data));
               rg.inc[b].push(a);
               let (ra, rb) = (before.ranks[a].unwrap_or(0), before.ranks[b].unwrap_or(0));
-              if rb < ra { reorders += 1; stats.hit("add_edge_reorder"); }
+              if rb < ra {
+                reorders += 1;
+                stats.hit("add_edge_reorder");
+                let after = snapshot(&dag, &handles);
+                if before.ranks.iter().zip(after.ranks.iter()).filter(|(x, y)| x != y).count() >= 3 { stats.hit("reorder_moved_ge3"); }
+              }
               stats.hit("add_edge_new");
             }
             Ok(false) => {
